@@ -889,10 +889,9 @@ impl Interpreter {
         use crate::compiler::Compiler;
         use bytecode_vm::BytecodeVM;
 
-        // Set main module path if this is the entry point
-        if self.main_module_path.is_none() {
-            self.main_module_path = module_path.clone();
-        }
+        // A new entry point: nothing of an earlier run may survive into this one
+        self.discard_previous_run();
+        self.main_module_path = module_path.clone();
         self.current_module_path = module_path.clone();
 
         // Parse the source
@@ -915,25 +914,35 @@ impl Interpreter {
 
         // Create module environment for main module (if module_path is provided)
         // This is needed to support exports and live bindings
-        let (saved_env, module_env) = if module_path.is_some() {
-            let saved = self.env.cheap_clone();
+        // The environment the run starts from is restored when the run ends, however it ends
+        let saved_env = Some(self.env.cheap_clone());
+        let module_env = if module_path.is_some() {
             let module_env = self.create_module_environment();
             // Root the module environment - it must persist for live bindings
             self.root_guard.guard(module_env.clone());
             self.env = module_env.cheap_clone();
-            (Some(saved), Some(module_env))
+            Some(module_env)
         } else {
-            (None, None)
+            None
         };
 
-        // All imports satisfied - set up import bindings first
-        self.setup_import_bindings(&program)?;
-
-        // Compile the program to bytecode
-        let chunk = if let Some(ref path) = module_path {
-            Compiler::compile_program_with_source(&program, path.as_str().to_string())?
-        } else {
-            Compiler::compile_program(&program)?
+        // All imports satisfied - set up import bindings first, then compile the program
+        // to bytecode. A failure here ends the run before it started: leave the module scope.
+        let compiled = self.setup_import_bindings(&program).and_then(|()| {
+            if let Some(ref path) = module_path {
+                Compiler::compile_program_with_source(&program, path.as_str().to_string())
+            } else {
+                Compiler::compile_program(&program)
+            }
+        });
+        let chunk = match compiled {
+            Ok(chunk) => chunk,
+            Err(e) => {
+                if let Some(saved) = saved_env {
+                    self.env = saved;
+                }
+                return Err(e);
+            }
         };
 
         // Run the bytecode VM
@@ -942,16 +951,17 @@ impl Interpreter {
 
         let result = self.run_vm_to_completion(vm);
 
-        // Restore environment and finalize exports if we used a module environment
-        if let (Some(saved), Some(module_env)) = (saved_env, module_env) {
+        // Restore the environment the run was started from
+        if let Some(saved) = saved_env {
             self.env = saved;
+        }
 
-            // If execution completed successfully, store the main module exports
-            if let Ok(StepResult::Complete(_)) = &result
-                && let Some(ref path) = module_path
-            {
-                self.finalize_module_exports(path.clone(), module_env);
-            }
+        // If a module completed successfully, store its exports
+        if let Some(module_env) = module_env
+            && let Ok(StepResult::Complete(_)) = &result
+            && let Some(ref path) = module_path
+        {
+            self.finalize_module_exports(path.clone(), module_env);
         }
 
         result
@@ -1365,6 +1375,30 @@ impl Interpreter {
         if let Some(saved) = saved_env {
             self.env = saved;
         }
+        // Exports the failed module body had collected so far belong to nobody
+        self.exports.clear();
+    }
+
+    /// Forget whatever an earlier run left behind.
+    ///
+    /// A run can end without the terminal bookkeeping of `step()`: the host stops stepping
+    /// it, never answers an order it is suspended on, or `prepare()` fails half-way. The
+    /// next program must start as on a fresh interpreter: no scope, call-stack entry,
+    /// suspended context, order, pending program or half-collected export of the dead run
+    /// may leak into it.
+    fn discard_previous_run(&mut self) {
+        // Back to the environment the dead run was started from
+        self.abandon_active_execution();
+        self.active_vm = None;
+        self.pending_program = None;
+        self.call_stack.clear();
+        self.env_guards.clear();
+        self.exports.clear();
+        self.suspended_for_order = None;
+        self.wait_graph = WaitGraph::new();
+        self.pending_orders.clear();
+        self.cancelled_orders.clear();
+        self.order_responses.clear();
     }
 
     /// Finalize active execution (restore environment, finalize exports)
@@ -1374,14 +1408,14 @@ impl Interpreter {
         let module_env = self.active_module_env.take();
         let module_path = self.active_module_path.take();
 
-        // Restore environment and finalize exports if we used a module environment
-        if let (Some(saved), Some(env)) = (saved_env, module_env) {
+        // Restore the environment the run was started from
+        if let Some(saved) = saved_env {
             self.env = saved;
+        }
 
-            // Store the main module exports
-            if let Some(path) = module_path {
-                self.finalize_module_exports(path, env);
-            }
+        // Store the main module exports if we used a module environment
+        if let (Some(env), Some(path)) = (module_env, module_path) {
+            self.finalize_module_exports(path, env);
         }
     }
 
@@ -1398,10 +1432,9 @@ impl Interpreter {
         use crate::compiler::Compiler;
         use bytecode_vm::BytecodeVM;
 
-        // Set main module path if this is the entry point
-        if self.main_module_path.is_none() {
-            self.main_module_path = module_path.clone();
-        }
+        // A new entry point: nothing of an earlier run may survive into this one
+        self.discard_previous_run();
+        self.main_module_path = module_path.clone();
         self.current_module_path = module_path.clone();
 
         // Parse the source
@@ -1422,24 +1455,35 @@ impl Interpreter {
         }
 
         // Create module environment for main module (if module_path is provided)
-        let (saved_env, module_env) = if module_path.is_some() {
-            let saved = self.env.cheap_clone();
+        // The environment the run starts from is restored when the run ends, however it ends
+        let saved_env = Some(self.env.cheap_clone());
+        let module_env = if module_path.is_some() {
             let module_env = self.create_module_environment();
+            // Root the module environment - it must persist for live bindings
             self.root_guard.guard(module_env.clone());
             self.env = module_env.cheap_clone();
-            (Some(saved), Some(module_env))
+            Some(module_env)
         } else {
-            (None, None)
+            None
         };
 
-        // All imports satisfied - set up import bindings first
-        self.setup_import_bindings(&program)?;
-
-        // Compile the program to bytecode
-        let chunk = if let Some(ref path) = module_path {
-            Compiler::compile_program_with_source(&program, path.as_str().to_string())?
-        } else {
-            Compiler::compile_program(&program)?
+        // All imports satisfied - set up import bindings first, then compile the program
+        // to bytecode. A failure here ends the run before it started: leave the module scope.
+        let compiled = self.setup_import_bindings(&program).and_then(|()| {
+            if let Some(ref path) = module_path {
+                Compiler::compile_program_with_source(&program, path.as_str().to_string())
+            } else {
+                Compiler::compile_program(&program)
+            }
+        });
+        let chunk = match compiled {
+            Ok(chunk) => chunk,
+            Err(e) => {
+                if let Some(saved) = saved_env {
+                    self.env = saved;
+                }
+                return Err(e);
+            }
         };
 
         // Create VM but don't run it
@@ -1559,24 +1603,35 @@ impl Interpreter {
         }
 
         // Create module environment for main module (if module_path is provided)
-        let (saved_env, module_env) = if module_path.is_some() {
-            let saved = self.env.cheap_clone();
+        // The environment the run starts from is restored when the run ends, however it ends
+        let saved_env = Some(self.env.cheap_clone());
+        let module_env = if module_path.is_some() {
             let module_env = self.create_module_environment();
+            // Root the module environment - it must persist for live bindings
             self.root_guard.guard(module_env.clone());
             self.env = module_env.cheap_clone();
-            (Some(saved), Some(module_env))
+            Some(module_env)
         } else {
-            (None, None)
+            None
         };
 
-        // All imports satisfied - set up import bindings first
-        self.setup_import_bindings(&program)?;
-
-        // Compile the program to bytecode
-        let chunk = if let Some(ref path) = module_path {
-            Compiler::compile_program_with_source(&program, path.as_str().to_string())?
-        } else {
-            Compiler::compile_program(&program)?
+        // All imports satisfied - set up import bindings first, then compile the program
+        // to bytecode. A failure here ends the run before it started: leave the module scope.
+        let compiled = self.setup_import_bindings(&program).and_then(|()| {
+            if let Some(ref path) = module_path {
+                Compiler::compile_program_with_source(&program, path.as_str().to_string())
+            } else {
+                Compiler::compile_program(&program)
+            }
+        });
+        let chunk = match compiled {
+            Ok(chunk) => chunk,
+            Err(e) => {
+                if let Some(saved) = saved_env {
+                    self.env = saved;
+                }
+                return Err(e);
+            }
         };
 
         // Create VM
@@ -1732,16 +1787,19 @@ impl Interpreter {
         self.root_guard.guard(module_env.clone());
         self.env = module_env.cheap_clone();
 
-        // Set up import bindings before bytecode execution
-        self.setup_import_bindings(&program)?;
-
-        // Execute module using bytecode compilation
-        let result = self.execute_program_bytecode(&program);
+        // Set up import bindings, then execute the module using bytecode compilation
+        let result = self
+            .setup_import_bindings(&program)
+            .and_then(|()| self.execute_program_bytecode(&program));
 
         // Restore state
         self.env = saved_env;
         self.current_module_path = saved_module_path;
 
+        if result.is_err() {
+            // The exports a failed module body had collected so far belong to nobody
+            self.exports.clear();
+        }
         result?;
 
         // Create module namespace object from exports
